@@ -191,3 +191,32 @@ def replay_random_state(r):
         return {"violation": True, "detail": "%s: %s" % (type(e).__name__, e)}
     bad = a.shape != b.shape or not np.allclose(a, b, rtol=1e-9, atol=1e-9)
     return {"violation": bool(bad), "detail": "two fits with random_state=%d differ by %g" % (seed, float(np.max(np.abs(a - b))) if a.shape == b.shape else -1)}
+
+
+def replay_tempfiles(r):
+    """real files: a private TMPDIR, a blockwise fit of the real WassersteinVectorizer (optionally with a distribution that
+    makes a later block fail), then a listing of the directory"""
+    import os, tempfile, shutil
+    from vectorizers import WassersteinVectorizer
+    p = r["params"]
+    base = tempfile.mkdtemp(prefix="symx_c13_")
+    try:
+        rng = np.random.RandomState(0)
+        vecs = rng.normal(size=(6, 3))
+        X = rng.random_sample((40, 6))
+        if p["fail"]:
+            X[35, :] = 0.0
+            X[35, 0], X[35, 1] = 2.0, -1.0     # an invalid distribution (negative mass) in a later block
+        est = WassersteinVectorizer(n_components=2, memory_size="1k", cachedir=base, random_state=0)
+        raised = None
+        try:
+            est.fit(sp.csr_matrix(X), vectors=vecs)
+        except Exception as e:
+            raised = "%s: %s" % (type(e).__name__, str(e)[:80])
+        left = []
+        for root, dirs, files in os.walk(base):
+            for n in dirs + files:
+                left.append(os.path.relpath(os.path.join(root, n), base))
+        return {"violation": bool(left), "detail": "left behind in cachedir after the call %s: %s" % ("raised (%s)" % raised if raised else "returned", sorted(left))}
+    finally:
+        shutil.rmtree(base, ignore_errors=True)
